@@ -212,3 +212,31 @@ pub fn any_valid(ctx: &mut Ctx) -> Dd {
 pub fn in_c01_operand_domain(x: Dd) -> bool {
     x.hi == 0.0 || (x.hi.abs() >= pow2_f64(-1000) && x.hi.abs() <= pow2_f64(1000))
 }
+
+/// History independence: one call in four is preceded by a call of the same function on a DECOY
+/// derived from x (same high word with another low word, the same mask XORed into both words, the
+/// words swapped in sign, -x).  The value returned for x is then judged by the ordinary oracle,
+/// so a result that depends on the previous call (a cache keyed by part of the argument or by a
+/// weak hash of it) shows up as an accuracy / exactness violation.
+pub fn decoy_call(ctx: &mut Ctx, x: Dd, f: fn(twofloat::TwoFloat) -> twofloat::TwoFloat) {
+    if !ctx.chance(1, 4) || !x.finite() {
+        return;
+    }
+    let d = match ctx.below(5) {
+        0 if x.hi != 0.0 && x.hi.is_normal() => dd_at(ctx, x.hi),
+        1 => {
+            let m = 1u64 << ctx.below(52);
+            Dd::new(f64::from_bits(x.hi.to_bits() ^ m), f64::from_bits(x.lo.to_bits() ^ m))
+        }
+        2 => {
+            let m = ctx.bits(40);
+            Dd::new(f64::from_bits(x.hi.to_bits() ^ m), f64::from_bits(x.lo.to_bits() ^ m))
+        }
+        3 => x.neg(),
+        _ => Dd::new(x.hi, -x.lo),
+    };
+    if d.valid() && !(d.hi == x.hi && d.lo == x.lo) {
+        ctx.label("decoy-call-first");
+        let _ = crate::engine::guard(|| f(d.tf()));
+    }
+}
